@@ -41,6 +41,8 @@ pub struct Rec {
     pub outcome: u64,
     /// when set, calls are neither logged nor failed (used for synchronisation round trips)
     pub quiet: bool,
+    /// when set, the next GET_VRING_BASE of ring 0 is the harness's own round trip: it is not logged
+    pub skip_sync: bool,
     /// when set, the scripted outcome applies to this handler only (others succeed)
     pub only: Option<String>,
     /// the sending side lives in this process too and still holds its own copy of every descriptor
@@ -71,6 +73,10 @@ impl Rec {
     fn call(&mut self, name: &str, mut args: Vec<Val>) {
         self.cur = name.to_string();
         if self.quiet {
+            return;
+        }
+        if self.skip_sync && name == "get_vring_base" && matches!(args.as_slice(), [Val::N(0)]) {
+            self.skip_sync = false;
             return;
         }
         let mut v = vec![Val::s(name)];
@@ -391,6 +397,7 @@ pub fn new_rec(features: u64, pfeatures: u64, fdt: Arc<Mutex<FdTable>>) -> Rec {
         pfeatures,
         outcome: 0,
         quiet: false,
+        skip_sync: false,
         only: None,
         sender_in_process: false,
         pre_fds: Default::default(),
